@@ -134,6 +134,94 @@ def raw_dtype_root(v, depth=0):
     return None
 
 
+class _Subst(ast.NodeTransformer):
+    def __init__(self, mapping):
+        self.mapping = mapping
+
+    def visit_Name(self, n):
+        if isinstance(n.ctx, ast.Load) and n.id in self.mapping:
+            return ast.copy_location(_clone(self.mapping[n.id]), n)
+        return n
+
+
+def _clone(e):
+    import copy
+    return copy.deepcopy(e)
+
+
+def _pattern(p, subj):
+    """(test expression or None for always-true, [(name, expr)] captures) for pattern p against the pure subject expression subj."""
+    if isinstance(p, ast.MatchValue):
+        return ast.Compare(left=_clone(subj), ops=[ast.Eq()], comparators=[_clone(p.value)]), []
+    if isinstance(p, ast.MatchSingleton):
+        return ast.Compare(left=_clone(subj), ops=[ast.Is()], comparators=[ast.Constant(value=p.value)]), []
+    if isinstance(p, ast.MatchClass) and not p.patterns and not p.kwd_patterns:
+        return ast.Call(func=ast.Name(id="isinstance", ctx=ast.Load()), args=[_clone(subj), _clone(p.cls)], keywords=[]), []
+    if isinstance(p, ast.MatchAs):
+        if p.pattern is None:
+            return None, ([(p.name, subj)] if p.name else [])
+        t, caps = _pattern(p.pattern, subj)
+        return t, caps + ([(p.name, subj)] if p.name else [])
+    if isinstance(p, ast.MatchOr):
+        tests = []
+        for q in p.patterns:
+            t, caps = _pattern(q, subj)
+            if caps:
+                raise AnalysisError("match: captures inside an or-pattern")
+            if t is None:
+                return None, []
+            tests.append(t)
+        return ast.BoolOp(op=ast.Or(), values=tests), []
+    if isinstance(p, ast.MatchSequence) and isinstance(subj, ast.Tuple) and len(p.patterns) == len(subj.elts) \
+            and not any(isinstance(q, ast.MatchStar) for q in p.patterns):
+        tests, caps = [], []
+        for q, e in zip(p.patterns, subj.elts):
+            t, c = _pattern(q, e)
+            caps += c
+            if t is not None:
+                tests.append(t)
+        if not tests:
+            return None, caps
+        return (tests[0] if len(tests) == 1 else ast.BoolOp(op=ast.And(), values=tests)), caps
+    raise AnalysisError("match: pattern %s is outside the model" % type(p).__name__)
+
+
+def _pure_subject(e):
+    if isinstance(e, (ast.Name, ast.Constant)):
+        return True
+    if isinstance(e, ast.Attribute):
+        return _pure_subject(e.value)
+    if isinstance(e, ast.Tuple):
+        return all(_pure_subject(x) for x in e.elts)
+    return False
+
+
+def _desugar_match(st):
+    pre = []
+    subj = st.subject
+    if not _pure_subject(subj):
+        tmp = "__match_subject_%d" % st.lineno
+        pre.append(ast.Assign(targets=[ast.Name(id=tmp, ctx=ast.Store())], value=subj))
+        subj = ast.Name(id=tmp, ctx=ast.Load())
+    chain = None
+    for case in reversed(st.cases):
+        test, caps = _pattern(case.pattern, subj)
+        mapping = {n: e for n, e in caps}
+        if case.guard is not None:
+            g = _Subst(mapping).visit(_clone(case.guard))
+            test = g if test is None else ast.BoolOp(op=ast.And(), values=[test, g])
+        body = [ast.Assign(targets=[ast.Name(id=n, ctx=ast.Store())], value=_clone(e)) for n, e in caps] + list(case.body)
+        if test is None:
+            chain = body                       # irrefutable case: later cases are unreachable
+        else:
+            chain = [ast.If(test=test, body=body, orelse=chain or [])]
+    out = pre + (chain or [])
+    for n in out:
+        ast.copy_location(n, st)
+        ast.fix_missing_locations(n)
+    return out
+
+
 INT_KEEP_FNS = {"getitem", "sum", "cumsum", "reshape", "flatten", "asarray", "take", "diagonal", "trace", "copy", "concat", "stack", "squeeze", "expand_dims", "moveaxis",
                 "swapaxes", "transpose", "attr:T", "store", "amin", "amax", "min", "max", "abs", "sort", "flip", "repeat", "elem", "diff", "where", "ite", "prod", "len"}
 
@@ -684,6 +772,10 @@ class Evaluator:
                 return v.attrs[name]
             if name == "__dict__":
                 return ObjDictView(v)
+            if getattr(v, "nt_fields", None) is not None and name in ("_asdict", "_replace", "_fields"):
+                if name == "_fields":
+                    return Tup([Const(f) for f in v.nt_fields])
+                return BoundExt(v, name)
             return self.class_attr(v.cls, name, v, node)
         if isinstance(v, SuperV):
             mro = v.obj.cls.mro()
@@ -717,7 +809,14 @@ class Evaluator:
             ci = self.db.cls(v.cls)
             m = ci.find_method(name)
             if m is not None:
+                if m.kind == "property":
+                    return self.call_function(FuncV(m, None, v, ci), [], {}, node)
                 return FuncV(m, None, v, ci)
+        if isinstance(v, App) and v.fn == "ite" and len(v.args) == 3 and all(isinstance(a, EnumM) or (isinstance(a, App) and a.fn == "ite") for a in v.args[1:]):
+            # a selection between enum members: the attribute of the selection is the selection of the attributes
+            a, b = self.getattr(v.args[1], name, node), self.getattr(v.args[2], name, node)
+            if isinstance(a, V) and isinstance(b, V):
+                return ite(v.args[0], a, b)
         if isinstance(v, (Lst, Dct, V, FuncV, LambdaV)) or type(v).__name__ == "ListElem":
             return self.lib.value_attr(self, v, name, node)
         raise AnalysisError("attribute %s of %r" % (name, v))
@@ -876,7 +975,7 @@ class Evaluator:
                         return None
                 return ite(c, x, y)
             return None
-        if not (isinstance(a, Tup) and isinstance(b, Tup)):
+        if not (isinstance(a, Tup) and isinstance(b, Tup)) and not (getattr(self, "merge_scalar_returns", False) and self.depth > 1):
             # only the extracted form of the merged tuple rebinding `if c: x, y = e1, e2` is summarised; scalar selections keep
             # their paths (rules read them path by path)
             return None
@@ -1000,6 +1099,17 @@ class Evaluator:
             self.event("augstore", base=self.eval(st.target.value, fr), index=self.eval_index(st.target.slice, fr), op=type(st.op).__name__,
                        rhs=rhs, node=st, loops=len(getattr(self, "loop_stack", [])))
         self.assign(st.target, new, fr, aug=True)
+
+    def st_Match(self, st, fr):
+        """`match` is evaluated as the if / elif chain it abbreviates (literal, None, class, wildcard, capture, or-patterns,
+        fixed-length sequence patterns over a tuple subject, guards); anything else is outside the model."""
+        cache = getattr(self, "_match_cache", None)
+        if cache is None:
+            cache = self._match_cache = {}
+        node = cache.get(id(st))
+        if node is None:
+            node = cache[id(st)] = _desugar_match(st)
+        return self.exec_block(node, fr)
 
     def st_If(self, st, fr):
         test = self.eval(st.test, fr)
